@@ -179,6 +179,36 @@ fn rejected_documents() -> usize {
     rejected
 }
 
+/// LONG but perfectly ordinary expression strings: deserialisation must agree with precompilation (flat chains are not nesting).
+fn long_documents(st: &mut State) {
+    let mut sources: Vec<String> = Vec::new();
+    sources.push((1..=150).map(|i| format!("p{i}")).collect::<Vec<_>>().join(" + "));
+    sources.push((1..=90).map(|i| format!("b{i}")).collect::<Vec<_>>().join(" && "));
+    sources.push(format!("({})", (1..=200).map(|i| i.to_string()).collect::<Vec<_>>().join(", ")));
+    sources.push((1..=120).map(|i| format!("v = {i}")).collect::<Vec<_>>().join("; "));
+    sources.push(format!("{}1{}", "(".repeat(60), ")".repeat(60)));
+    sources.push(format!("{}1{}", "f(".repeat(40), ")".repeat(40)));
+    for src in sources {
+        st.count("long_documents");
+        let quoted = ron::to_string(&src).unwrap_or_default();
+        let built = build_operator_tree::<DefaultNumericTypes>(&src);
+        let de = ron::from_str::<Node<DefaultNumericTypes>>(&quoted);
+        let same = match (&built, &de) {
+            (Ok(a), Ok(b)) => a == b,
+            (Err(e), Err(d)) => d.to_string().contains(&e.to_string()),
+            _ => false,
+        };
+        if !same {
+            let shown = match &de {
+                Ok(_) => "a different tree".to_string(),
+                Err(e) => format!("error {e}"),
+            };
+            st.fail("serde_node", format!("a {}-character expression: precompilation {}, deserialisation gives {shown}", src.len(),
+                                          if built.is_ok() { "succeeds" } else { "fails" }), "{\"kind\":\"long_document\"}");
+        }
+    }
+}
+
 fn projection(c: &C, probe: &[String]) -> (bool, Vec<(String, V)>, Vec<String>) {
     let mut vars: Vec<(String, V)> = c.iter_variables().collect();
     vars.sort_by(|a, b| a.0.cmp(&b.0));
@@ -335,6 +365,9 @@ fn run_value(st: &mut State, case: &J, raw: &str) {
     // neighbours of the name `a` that a normalising (de)serialiser would merge with it: letter case, a trailing blank
     c.set_value("A".into(), Value::Int(3)).unwrap();
     c.set_value("a ".into(), Value::Boolean(true)).unwrap();
+    // names a text format has to escape
+    c.set_value("x'".into(), Value::Int(4)).unwrap();
+    c.set_value("q\"\\\n".into(), Value::Empty).unwrap();
     c.set_function("f".into(), make_function("id", None)).unwrap();
     c.set_builtin_functions_disabled(case.get("nb").bool()).unwrap();
     match round_trip(&c) {
@@ -342,7 +375,13 @@ fn run_value(st: &mut State, case: &J, raw: &str) {
             let got = projection(&c2, &["f".to_string()]);
             let want = (
                 case.get("nb").bool(),
-                vec![("A".to_string(), Value::Int(3)), ("a".to_string(), v.clone()), ("a ".to_string(), Value::Boolean(true))],
+                vec![
+                    ("A".to_string(), Value::Int(3)),
+                    ("a".to_string(), v.clone()),
+                    ("a ".to_string(), Value::Boolean(true)),
+                    ("q\"\\\n".to_string(), Value::Empty),
+                    ("x'".to_string(), Value::Int(4)),
+                ],
                 vec![],
             );
             if !same_projection(&got, &want) {
@@ -360,6 +399,7 @@ fn main() {
     std::panic::set_hook(Box::new(|_| {}));
     let mut logw = log.map(|p| std::fs::File::create(p).expect("log"));
     let mut st = State::default();
+    long_documents(&mut st);
     let rejected = rejected_documents();
     for _ in 0..rejected {
         st.count("rejected_documents_first");
